@@ -341,6 +341,9 @@ class Value:
                         continue
                     if 1 <= self.value / den < 1000:
                         denominator = den
+                if denominator == 'auto':
+                    # No denominator gives a number from 1 to 1000 (an amount of zero for instance): use the main unit
+                    denominator = 1
         elif isinstance(denominator, str):
             dens = [den for den, symb in NETWORK_DENOMINATORS.items() if symb == denominator[:len(symb)] and len(symb)]
             if len(dens) > 1:
